@@ -1,12 +1,12 @@
-// Work package k19 — NUMBER-POLYMORPHIC kernels (kinds `funcn` / `regionn`).
+// Work package k19 — NUMBER-POLYMORPHIC kernels (kind `funcn`).
 //
 //	funcn   <LeanModule> <leanName> <import/path> <GoFunc | Recv.Method>
-//	regionn <LeanModule> <leanName> <import/path> <GoFunc>@<first>..<last>><outs>
 //
-// exactly `funcm` / `region` (monadic.go), except that float64 is not Lean `Float` but an ABSTRACT number type:
+// exactly `funcm` (monadic.go), except that float64 is not Lean `Float` but an ABSTRACT number type:
 // every emitted definition (loop bodies included) takes `{F : Type} (ops : Gzx.GoM.NumOps F)` first, and
-//   - `float64` is `F`, `[]float64` is `List F` (checked reads / writes `Gzx.GoM.idxA` / `setIdxA`, `len` = `lenA`,
-//     `make([]float64, n)` = `mkA (ops.ofInt 0) n`);
+//   - `float64` is `F`, `[]float64` is `List F` (checked reads / writes `Gzx.GoM.idxA` / `setIdxA`, `len` = `lenA`);
+//     struct fields of type float64 (`p.a11`) are parameters of type `F` like integer fields, a `*T` result whose fields
+//     are float64 is returned as the tuple of its fields;
 //   - `a + b`, `a - b`, `a * b`, `a / b`, `-a` on float64 are `ops.add / sub / mul / div / neg` IN THE SOURCE'S
 //     ASSOCIATION AND OPERAND ORDER (nothing is re-associated: float64 arithmetic is not associative);
 //   - `float64(<int>)` is `ops.ofInt`, `int(<float64>)` is `ops.toInt`, a float64 constant is `ops.ofInt n` when it is an
@@ -19,9 +19,11 @@
 // arbitrary field (what the algebra theorems are about).  Obligations/K19*.lean prove the instantiations equal to the
 // models, so that the theorems about the models are theorems about the regenerated source.
 //
-// `regionn` additionally knows ABSTRACT CALLEES (see k19Abstract): a call the subset cannot translate becomes a call
-// of a function parameter of the definition, so that the loop structure / index arithmetic / bounds tests around it
-// are regenerated and proved for EVERY behaviour of the callee.
+// NOT implemented (needed for DefaultGridSampler.SampleGridWithTransform as one kernel): calls the subset cannot
+// translate as ABSTRACT CALLEES — `transform.TransformPoints(points)`, `GridSampler_checkAndNudgePoints(image, points)`,
+// `image.Get(px, py)`, `bits.Set(x/2, y)` would become fields of a generated environment structure that every emitted
+// definition takes next to `ops` (the post-processing below already threads `ops` that way), local objects (`bits`) an
+// abstract state type; `make([]float64, n)` would be `Gzx.GoM.mkA (ops.ofInt 0) n`.
 package main
 
 import (
@@ -256,7 +258,7 @@ func (fc *fnCtx) k19Float(ex ast.Expr) (string, bool, error) {
 
 var k19BodyRe = regexp.MustCompile(`\b([A-Za-z_][A-Za-z0-9_]*_body[0-9]+)\b`)
 
-// genFuncN: `funcm` / `region` with k19Poly on; afterwards every definition of the text gets the `{F} (ops)` header and
+// genFuncN: `funcm` with k19Poly on; afterwards every definition of the text gets the `{F} (ops)` header and
 // every use of a loop body / of the definition by a later kernel passes `ops`.
 func genFuncN(p *packages.Package, e entry) (string, error) {
 	k19Poly = true
@@ -264,11 +266,7 @@ func genFuncN(p *packages.Package, e entry) (string, error) {
 	k19NeedNum(e.module)
 	var text string
 	var err error
-	if e.kind == "regionn" {
-		text, err = genRegionN(p, e)
-	} else {
-		text, err = genFuncM(p, e)
-	}
+	text, err = genFuncM(p, e)
 	if err != nil {
 		return "", err
 	}
@@ -292,11 +290,6 @@ func genFuncN(p *packages.Package, e entry) (string, error) {
 		}
 	}
 	return text, nil
-}
-
-// genRegionN: placeholder until the abstract-callee region is implemented
-func genRegionN(p *packages.Package, e entry) (string, error) {
-	return genRegion(p, e)
 }
 
 var _ = ast.Inspect
